@@ -358,6 +358,7 @@ class InitialDrawHandler:
     def __init__(self, ch):
         self.ch = ch
         self.seen = []
+        self.last = None
 
     def choice(self, gen, a, size, replace, p):
         if p is not None:
@@ -377,6 +378,7 @@ class InitialDrawHandler:
                 c = self.ch.choose(len(left), tag="init_nr") if len(left) > 1 else 0
                 idx.append(left.pop(c))
         out = pool[numpy.array(idx, dtype="int64")]
+        self.last = out.tolist()
         return out if size is not None else out[0]
 
 
